@@ -74,6 +74,75 @@ pub struct Scn {
     /// never be satisfied, the transform must fail
     #[serde(default)]
     pub phantom: bool,
+    /// fixed-form constructs appended to the body, each with its own expected text:
+    /// bit 0 "chain": a reuse of a reuse (the outer attributes enclose everything the inner
+    /// one instantiates); bit 1 "leaf": reuse of a rendered leaf with a variable overridden;
+    /// bit 2 "waiting-reuse": an empty <reuse> with an attribute whose first attempt fails,
+    /// and a later read of that name outside it. `addon_variant` selects spellings.
+    #[serde(default)]
+    pub addons: u8,
+    #[serde(default)]
+    pub addon_variant: u8,
+}
+
+/// (document text for <specs>, document text appended to the body, expected marker texts)
+fn addon_parts(scn: &Scn) -> (String, String, Vec<(String, Vec<String>)>) {
+    let (mut specs, mut body, mut expect) = (String::new(), String::new(), Vec::new());
+    let v = scn.addon_variant;
+    if scn.addons & 1 != 0 {
+        // chain: #chb is an empty reuse of #cha; the outer reuse defines vs (and the middle one
+        // may define vt); an outer binding of both names exists
+        let target = if v & 1 == 0 {
+            "<text id=\"cha\" xy=\"0 95\" text=\"CH:s=${vs};t=${vt};\"/>".to_string()
+        } else {
+            "<g id=\"cha\"><text xy=\"0 95\" text=\"CH:s=${vs};t=${vt};\"/></g>".to_string()
+        };
+        let mid_t = v & 2 != 0;
+        specs.push_str(&format!("    {target}\n    <reuse id=\"chb\" href=\"#cha\"{}/>\n", if mid_t { " vt=\"mid\"" } else { "" }));
+        body.push_str("  <var vs=\"OUT\" vt=\"OUTT\"/>\n  <reuse href=\"#chb\" vs=\"five\"/>\n");
+        expect.push(("CH:".to_string(), vec![format!("CH:s=five;t={};", if mid_t { "mid" } else { "OUTT" })]));
+    }
+    if scn.addons & 2 != 0 {
+        // a rendered leaf (not in <specs>) reads a variable defined where it is written; a
+        // reuse of it overrides the variable
+        if v & 4 == 0 {
+            body.push_str("  <var vl=\"A\"/>\n  <text id=\"lr\" xy=\"0 96\" text=\"LR:${vl};\"/>\n  <reuse href=\"#lr\" vl=\"B\"/>\n");
+        } else {
+            body.push_str("  <g vl=\"A\"><text id=\"lr\" xy=\"0 96\" text=\"LR:${vl};\"/></g>\n  <reuse href=\"#lr\" vl=\"B\"/>\n");
+        }
+        expect.push(("LR:".to_string(), vec!["LR:A;".to_string(), "LR:B;".to_string()]));
+    }
+    if scn.addons & 4 != 0 {
+        // an empty <reuse> carrying an attribute; its first attempt fails after its scope was
+        // pushed (own forward position, or a target which is itself waiting); the name is
+        // read again outside
+        let outer = v & 8 != 0;
+        if outer {
+            body.push_str("  <var vfr=\"outer\"/>\n");
+        }
+        if v & 16 == 0 {
+            specs.push_str("    <rect id=\"fr\" wh=\"2\"/>\n");
+            body.push_str("  <reuse href=\"#fr\" xy=\"#frlater|h\" vfr=\"red\"/>\n");
+        } else {
+            body.push_str("  <rect id=\"fr\" xy=\"#frlater|v\" wh=\"2\"/>\n  <reuse href=\"#fr\" vfr=\"red\" x=\"3\" y=\"99\"/>\n");
+        }
+        body.push_str("  <text xy=\"0 97\" text=\"FR:${vfr};\"/>\n  <rect id=\"frlater\" xy=\"0 98\" wh=\"1\"/>\n");
+        expect.push(("FR:".to_string(), vec![if outer { "FR:outer;".to_string() } else { "FR:${vfr};".to_string() }]));
+    }
+    (specs, body, expect)
+}
+
+/// texts in the output which start with `marker`, in document order
+fn addon_texts(out: &str, marker: &str) -> Vec<String> {
+    let mut v = Vec::new();
+    let mut rest = out;
+    while let Some(p) = rest.find(marker) {
+        let after = &rest[p..];
+        let end = after.find('<').unwrap_or(after.len());
+        v.push(after[..end].trim().to_string());
+        rest = &after[end.min(after.len()).max(1)..];
+    }
+    v
 }
 
 // ---------------------------------------------------------------------------------------------
@@ -373,10 +442,15 @@ pub fn render(scn: &Scn, fwd: bool) -> String {
         }
         s.push_str("  </specs>\n");
     }
+    let (addon_specs, addon_body, _) = addon_parts(scn);
+    if !addon_specs.is_empty() {
+        s.push_str(&format!("  <specs>\n{addon_specs}  </specs>\n"));
+    }
     if scn.defaults {
         s.push_str("  <defaults><_ match=\"rect text var\" vz=\"DLEAK\" fill=\"dleak\"/><rect va=\"dva\"/><text vb=\"dvb\"/><g vz=\"GLEAK\" vm=\"77\"/><_ match=\"g\" fill=\"gleak\"/></defaults>\n");
     }
     render_body(&scn.body, 1, false, &mut s, &mut line);
+    s.push_str(&addon_body);
     if scn.phantom {
         s.push_str("  <g id=\"Q$vq\" vq=\"x\"><rect xy=\"1 90\" wh=\"1\"/><var vq=\"x\"/></g>\n  <rect xy=\"#Qx|h\" wh=\"1\"/>\n");
     }
@@ -698,6 +772,8 @@ impl Engine for C15 {
             defaults: index % 5 == 2,
             var_limit,
             phantom: index % 12 == 7,
+            addons: if index % 3 == 1 && var_limit.is_none() { 1 << (index / 3 % 3) } else { 0 },
+            addon_variant: (index / 9 % 32) as u8,
         })
         .unwrap()
     }
@@ -788,6 +864,20 @@ impl Engine for C15 {
                     );
                 }
                 continue;
+            }
+            if let Outcome::Ok(bytes) = out {
+                let text = String::from_utf8_lossy(bytes);
+                for (marker, want) in addon_parts(&scn).2 {
+                    res.stats.probe(&format!("addon_{}", marker.trim_end_matches(':')));
+                    let got = addon_texts(&text, &marker);
+                    if got != want {
+                        res.violation(
+                            "scoping/reuse-scope",
+                            &format!("c15:addon:{}{variant}", marker.to_lowercase()),
+                            format!("{variant} variant: texts marked {marker} are {got:?}, lexical scoping gives {want:?}; document:\n{}", shorten(doc, 1800)),
+                        );
+                    }
+                }
             }
             match out {
                 Outcome::Ok(bytes) => {
